@@ -73,14 +73,43 @@ def GenRes.toJson (g : GenRes) : Json :=
 def GenRes.component (rows cols : Nat) (g : GenRes) : Option (List Cell) :=
   if g.flag.getD false then some (cells rows cols) else g.visited
 
-/-- run the generator model named in the request on the recorded draws; `none` = the model run did not complete -/
-def runGen (j : Json) : R (Option GenRes) := do
+/-- the `start_coord` argument of a request: absent | a pair of integers (a `Cell`, the model's domain) | an integer
+    list of another length (not a `Cell`; `_random_start_coord` rejects it by its shape test before looking at values) -/
+inductive StartArg where
+  | absent | cell (c : Cell) | wrongLength (n : Nat)
+
+def getStartArg (j : Json) : R StartArg := do
+  match optFld j "start" with
+  | none => pure .absent
+  | some v =>
+    let xs ← (← v.getArr?).toList.mapM fun x => x.getInt?
+    match xs with
+    | [a, b] => pure (.cell (a, b))
+    | _ => pure (.wrongLength xs.length)
+
+/-- why a model run returned `none`, named for the harness: the error branch of `startCoord` for a given start
+    outside the grid (`StartRejected`, = the ValueError of `_random_start_coord`; `C01_start_rejected`), a refused /
+    missing start draw, or an incomplete run (draws exhausted / out of range / fuel) -/
+def noneReason (rows cols : Nat) (given : Option Cell) (draws : List Nat) : String :=
+  if StartRejected rows cols given then "start_outside_grid"
+  else if (startCoord rows cols given draws).isNone then "start_draw_refused"
+  else "run_incomplete"
+
+/-- run the generator model named in the request on the recorded draws; `.error reason` = the model run returned
+    `none`, with the reason (`noneReason`) -/
+def runGen (j : Json) : R (Except String GenRes) := do
   let gen ← getStr j "gen"
   let rows ← getNat j "rows"; let cols ← getNat j "cols"
   let draws ← getNatList j "draws"
-  let given : Option Cell ← match optFld j "start" with
-    | none => pure none
-    | some v => pure (some (← asCell v))
+  let given : Option Cell ← match (← getStartArg j) with
+    | .absent => pure none
+    | .cell c => pure (some c)
+    | .wrongLength _ =>
+      -- outside the model's type `Cell`: no model function is evaluated; the harness checks the real code raises ValueError
+      return (.error "start_wrong_length")
+  let fin (r : Option GenRes) : Except String GenRes := match r with
+    | some g => .ok g
+    | none => .error (noneReason rows cols given draws)
   let fuel := 8 * rows * cols + 16
   match gen with
   | "dfs" | "prim" | "dfs_percolation" =>
@@ -92,7 +121,7 @@ def runGen (j : Json) : R (Option GenRes) := do
     let a : Args := { nAcc := nAcc.toNat, maxDepth := md, doForks := doForks, randStack := rs }
     if gen == "dfs" || gen == "prim" then
       let r := if gen == "dfs" then genDfsTop rows cols a given draws fuel else genPrimTop rows cols a given draws fuel
-      pure <| r.map fun o =>
+      pure <| fin <| r.map fun o =>
         ({ edges := o.edges, start := some o.start, visited := some o.visited, flag := some o.fullyConnected,
            leftover := o.leftover.length, nAcc := some nAcc, maxDepth := some md } : GenRes)
     else
@@ -100,19 +129,19 @@ def runGen (j : Json) : R (Option GenRes) := do
       let rands ← getRands j
       match p with
       | [pn, pd] =>
-        pure <| (genDfsPercolationTop rows cols (pn, pd) a given draws rands fuel).map fun o =>
+        pure <| fin <| (genDfsPercolationTop rows cols (pn, pd) a given draws rands fuel).map fun o =>
           ({ edges := o.edges, start := some o.start, visited := some o.visited, flag := some o.fullyConnected,
              nAcc := some nAcc, maxDepth := some md, dfsEdges := some o.dfsEdges } : GenRes)
       | _ => throw "p: expected [num, den]"
   | "wilson" =>
-    pure <| (genWilsonTop rows cols draws (64 * (draws.length + rows * cols) + 64)).map fun s =>
+    pure <| fin <| (genWilsonTop rows cols draws (64 * (draws.length + rows * cols) + 64)).map fun s =>
       ({ edges := s.E, flag := some true, leftover := s.rng.length } : GenRes)
   | "percolation" =>
     let p ← getNatList j "p"
     let rands ← getRands j
     match p with
     | [pn, pd] =>
-      pure <| (genPercolationTop rows cols (pn, pd) given draws rands fuel).map fun o =>
+      pure <| fin <| (genPercolationTop rows cols (pn, pd) given draws rands fuel).map fun o =>
         ({ edges := o.edges, start := some o.start, visited := some o.visited } : GenRes)
     | _ => throw "p: expected [num, den]"
   | g => throw s!"unknown generator {g}"
@@ -121,8 +150,8 @@ def handle (op : String) (j : Json) : R Json := do
   match op with
   | "C01.gen" =>
     match ← runGen j with
-    | some g => pure g.toJson
-    | none => pure (obj [("ok", false)])
+    | .ok g => pure g.toJson
+    | .error reason => pure (obj [("ok", false), ("reason", Json.str reason)])
   | _ => throw s!"unknown op {op}"
 
 end MZ.Drv.C01
